@@ -34,7 +34,7 @@ unused value inside the function that leaves it unused (unused: main>=1; branch:
 and eat>=1; reassign: main>=2 -- a drop op has exactly one input, so two distinct values
 need two ops).  Since a valid HUGR connects every linear port exactly once, a drop inside
 `main` of the branch program can only lie on the path that does not call `eat`.
-Quick restricts part 2 to element bases {int, bool, None, qubit} (complete for those).
+Quick restricts part 2 to element bases {int, qubit} (complete for those); thorough uses all bases.
 """
 from __future__ import annotations
 
@@ -42,7 +42,7 @@ ID = "C14"
 LEVEL = "exploration"
 
 VARIANTS = ("unused", "branch", "reassign")
-QUICK_P2_BASES = ("int", "bool", "None", "qubit")
+QUICK_P2_BASES = ("int", "qubit")
 
 
 # ------------------------------------------------------------------------ oracle
@@ -234,6 +234,33 @@ def eval_type(desc):
         return [], (1, 0, 0, 0, 0, f"{type(e).__name__}: {e} on {desc!r}", 0)
 
 
+_DESCS: list = []      # set in the parent before forking; workers index into it
+
+
+def eval_range(rng):
+    """Aggregated part-1 evaluation of _DESCS[lo:hi] (keeps IPC small)."""
+    lo, hi = rng
+    cnt = [0] * 7
+    classes: dict = {}
+    viols: dict = {}
+    harness = []
+    for desc in _DESCS[lo:hi]:
+        viol, fl = eval_type(desc)
+        for i in (0, 1, 2, 3, 4, 6):
+            cnt[i] += fl[i]
+        if fl[5]:
+            harness.append(fl[5])
+            continue
+        k = str(classify(desc))
+        classes[k] = classes.get(k, 0) + 1
+        for key, what in viol:
+            if key in viols:
+                viols[key][0] += 1
+            else:
+                viols[key] = [1, what, desc]
+    return cnt, classes, viols, harness[:5], len(harness)
+
+
 # ------------------------------------------------------------------ part 2 worker
 P2_HEAD = """\
 from guppylang import guppy, qubit, array
@@ -300,7 +327,8 @@ def run_drop(item):
             bad = gload.validate(o.package)
             drops = count_drops(o.package)
             if bad is not None:
-                return ("invalid-hugr", bad[:200], drops)
+                msg = bad.split("Stack backtrace")[0].split("Caused by:")[-1]
+                return ("invalid-hugr", " ".join(msg.split())[:200], drops)
             m, e = drops.get("main", 0), drops.get("eat", 0)
             need_m, need_e = {"unused": (1, 0), "branch": (1, 1), "reassign": (2, 0)}[variant]
             if m < need_m or e < need_e:
@@ -336,11 +364,28 @@ def p2_types(descs):
     return out, skipped_open, skipped_kind, skipped_unwritable
 
 
-def has_phantom_affine(desc) -> bool:
-    """A GP[...] whose argument is what makes the type non-copyable: the HUGR value has
-    no component for it, so no drop op can be demanded."""
-    from vlib.tyuniverse import PHANTOM, has
-    return has(desc, lambda d: (not isinstance(d, str)) and d[0] == "struct" and d[1] in PHANTOM)
+def has_affine_component(desc, binding=()) -> bool:
+    """Does a value of this type physically contain an array (reachable through tuple /
+    Option / array elements and struct FIELDS, not through function types)?  A type that
+    is non-copyable only because of a phantom struct argument (GP[array[int, 2]]) has
+    no such component: its HUGR value is a plain copyable tuple and no drop op can be
+    demanded for it (boundary case, counted)."""
+    from vlib.tyuniverse import STRUCTS
+    if isinstance(desc, str):
+        return False
+    head = desc[0]
+    if head == "param":
+        return binding[desc[1]]
+    if head == "array":
+        return True
+    if head in ("frozenarray", "func", "var"):
+        return False
+    if head in ("option", "tuple"):
+        return any(has_affine_component(d, binding) for d in desc[1:])
+    if head == "struct":
+        args = tuple(has_affine_component(d, binding) for d in desc[2:])
+        return any(has_affine_component(f, args) for f in STRUCTS[desc[1]][1])
+    raise ValueError(desc)
 
 
 # --------------------------------------------------------------------------- run
@@ -353,25 +398,33 @@ def run(ctx):
     else:
         descs = U.universe(3, restrict_pairs_at=3)
         bound = "depth<=2 complete; depth 3: all unary constructors over depth-2 types, 2-tuples with REPS"
-    res = ctx.pmap(eval_type, descs, chunk=1024)
+    global _DESCS
+    _DESCS = descs
+    step = 8192
+    ranges = [(i, min(i + step, len(descs))) for i in range(0, len(descs), step)]
+    # ~85 us per type: below ~150 k types a fork pool costs more than it saves
+    if len(descs) < 150_000:
+        res = [eval_range(r) for r in ranges]
+    else:
+        res = ctx.pmap(eval_range, ranges, chunk=1, recycle=10_000)
     n = nontrivial = propagated = boundary = open_cases = no_hugr = 0
     harness = []
-    for desc, (viol, fl) in zip(descs, res):
-        n += fl[0]
-        nontrivial += fl[1]
-        propagated += fl[2]
-        boundary += fl[3]
-        open_cases += fl[4]
-        no_hugr += fl[6]
-        if fl[5]:
-            harness.append(fl[5])
-        for key, what in viol:
-            ctx.violation(key, what, {"part": "classify", "desc": desc})
-    # distribution of oracle classes (measured)
+    n_harness = 0
     classes: dict = {}
-    for d in descs:
-        k = str(classify(d))
-        classes[k] = classes.get(k, 0) + 1
+    for cnt, cls, viols, hs, nh in res:
+        n += cnt[0]
+        nontrivial += cnt[1]
+        propagated += cnt[2]
+        boundary += cnt[3]
+        open_cases += cnt[4]
+        no_hugr += cnt[6]
+        harness += hs
+        n_harness += nh
+        for k, v in cls.items():
+            classes[k] = classes.get(k, 0) + v
+        for key, (count, what, desc) in viols.items():
+            ctx.violation(key, what, {"part": "classify", "desc": desc})
+            ctx.violations[key]["count"] += count - 1
 
     # ---- part 2
     if ctx.quick:
@@ -382,7 +435,8 @@ def run(ctx):
         p2_bound = "depth<=2 over all bases"
     tys, sk_open, sk_kind, sk_unwr = p2_types(p2_universe)
     items = [(d, v) for d in tys for v in VARIANTS]
-    out = ctx.pmap(run_drop, items, chunk=64, recycle=20)
+    # ~25 ms per program; a fork pool only pays off for the thorough tier
+    out = [run_drop(i) for i in items] if len(items) < 1000 else ctx.pmap(run_drop, items, chunk=64, recycle=40)
     failing = {}
     for (d, v), (prob, detail, drops) in zip(items, out):
         if prob == "HARNESS":
@@ -398,14 +452,14 @@ def run(ctx):
         if any(failing.get((ch, v), ("",))[0] == prob for ch in U.children(d)):
             p2_prop += 1
             continue
-        if prob == "missing-drop" and has_phantom_affine(d):
+        if prob == "missing-drop" and not has_affine_component(d):
             p2_phantom += 1
             continue
         ctx.violation(f"drop:{v}:{prob}:{head_of(d)}",
                       f"T = {show(d)} (droppable, not copyable), program '{v}': {prob}: {detail}",
                       {"part": "drop", "desc": d, "variant": v})
     if harness:
-        raise RuntimeError(f"{len(harness)} harness errors, first: {harness[0]}")
+        raise RuntimeError(f"{max(n_harness, len(harness))} harness errors, first: {harness[0]}")
     samples = [{"type": show(d), "oracle": str(classify(d))} for d in descs[::max(1, len(descs) // 6)][:6]]
     samples += [{"program": program(tys[len(tys) // 2], "branch")}] if tys else []
     return {
@@ -425,7 +479,7 @@ def run(ctx):
         "p2_skipped_open_copyability": sk_open, "p2_skipped_ill_kinded": sk_kind,
         "p2_skipped_owned_copyable_func_input_unwritable": sk_unwr,
         "p2_drop_histogram": drop_hist,
-        "harness_errors": len(harness),
+        "harness_errors": n_harness + len(harness),
     }
 
 
